@@ -114,6 +114,7 @@ type Measurement struct {
 	Nmin  [6]int     `json:"nmin"`
 	Mode  int        `json:"mode"` // 1 fraction of available water, 2, 3 absolute
 	Water [6]float64 `json:"water"`
+	Short bool       `json:"short,omitempty"` // only the classes down to 9 dm are given (short text line / empty csv cells)
 }
 
 type AutoLine struct {
@@ -212,6 +213,7 @@ type World struct {
 	Auto     []AutoLine   `json:"auto,omitempty"`
 	// Decoy entities in shared files (other fields / soils) to exercise file scanning.
 	Decoys   int          `json:"decoys,omitempty"`
+	TightGap bool         `json:"tightgap,omitempty"` // a sowing date / window 1-4 days behind the preceding (latest) harvest
 	// BadEnt adds entities that make a batch line fail with a reported run error
 	// when selected by plotNr / soilId / fcode (C11).
 	BadEnt   bool         `json:"badent,omitempty"`
@@ -633,7 +635,11 @@ func GenWorld(r *RNG, p Profile, pt *ParamTables) *World {
 		if hi > 2098 {
 			hi = 2098
 		}
-		y0 = r.Range(lo+2, hi-years-2) // two spare years on each side: pre-start events, the initial crop's sowing date and the spare weather year stay inside the unambiguous century window
+		y0 = r.Range(lo+2, hi-years-2)
+		if r.Bool(0.12) {
+			y0 = lo + 1 // edge of the window: the dates of the year before the start carry the two-digit year that equals DivideCentury
+		}
+		// otherwise two spare years on each side: pre-start events, the initial crop's sowing date and the spare weather year stay inside the unambiguous century window
 	} else {
 		c.DivideCentury = r.PickI([]int{0, 50, 60})
 		y0 = r.Range(1902, 2098-years-1)
@@ -924,7 +930,11 @@ func (w *World) autoValid() bool {
 		if c.AutoHarvest {
 			lastHar = h2
 		}
-		if firstSow < prevEnd+6 || lastSow < firstSow || lastHar < lastSow+60 {
+		gap := Day(6)
+		if w.TightGap {
+			gap = 1 // stratum: the window may open the day after the preceding latest harvest (still inside the property's quantifier)
+		}
+		if firstSow < prevEnd+gap || lastSow < firstSow || lastHar < lastSow+60 {
 			return false
 		}
 		prevEnd = lastHar
